@@ -322,8 +322,14 @@ class sequence_variables:
             pass
         r = []
         while start > 1:
+            current = start
             start, end, spam = opt(0, start - 1 + overlap, sz, orphan,
                                    sequence)
+            if start >= current:
+                # overlap >= size: the batches do not move towards the
+                # beginning of the sequence, so there is none to list
+                # (and no end to listing them)
+                break
             v = sequence_variables(self.items, self.query_string,
                                    self.start_name_re)
             d = v.data
